@@ -107,6 +107,14 @@ func (c *monC05) After(m *Machine, s *Step) *Violation {
 		return nil
 	}
 	op, r := s.Op, s.Resp
+	if op.K == "recget" {
+		// opening the link shows a form; it neither spends nor refreshes anything
+		if !usersEqual(s.Pre, s.Post) {
+			return violation("C05", "opening-the-link-changed-storage", "GET recover/end with a %s/%s token changed storage: %v", op.Src, op.Mut, snapDiff(s.Pre, s.Post))
+		}
+		m.flag("link-opened")
+		return nil
+	}
 	if op.K != "confirm" && op.K != "recend" {
 		return nil
 	}
@@ -240,7 +248,7 @@ func (c *monC05) End(m *Machine) *Violation {
 }
 
 var kindsC05 = []wk{
-	{"confirm", 22}, {"recend", 24}, {"recstart", 12}, {"reconfirm", 8}, {"register", 5}, {"advance", 8}, {"login", 4},
+	{"confirm", 22}, {"recend", 24}, {"recget", 8}, {"recstart", 12}, {"reconfirm", 8}, {"register", 5}, {"advance", 8}, {"login", 4},
 	{"snip:recover", 10}, {"snip:register", 8}, {"newsess", 1},
 }
 
